@@ -883,7 +883,14 @@ func main() {
 		}
 		ksKeys = append(ksKeys, keyRec{sd.name + "/ks", p, p.XPub()})
 	}
-	wg.Add(4)
+	wg.Add(5)
+	var listInfo map[string]interface{}
+	go func() {
+		defer wg.Done()
+		la := newAcc()
+		listInfo = sectionLists(la, run.Thorough(), [][]byte{selA, selB, selC})
+		a.merge(la)
+	}()
 	var bndInfo map[string]interface{}
 	go func() {
 		defer wg.Done()
@@ -896,6 +903,7 @@ func main() {
 	wg.Wait()
 	run.Set("hsm_history_worlds", histWorlds)
 	run.Set("scalar_boundary_section", bndInfo)
+	run.Set("key_list_section", listInfo)
 
 	var keys []keyRec
 	for _, sd := range seeds() {
